@@ -145,6 +145,22 @@ def explore(chk):
             kind = setbuild.WRITERS[(h // 8) % len(setbuild.WRITERS)]
             shared = [(kind, None)]
             ops_fixed = [("fresh", None, kind, o_, 0) for o_ in ({"relativize": False, "fit_to_screen": False}, {"relativize": False}, {"fit_to_screen": False}, None)]
+        elif h % 16 == 0:
+            # a write that raises part-way through a document (a later caption positioned in px, no video size given),
+            # then an ordinary set on the same writer object: nothing of the aborted document may show in the next one
+            kind = ["sami", "dfxp", "webvtt", "single", "sami"][(h // 16) % 5]
+            bad = setbuild.rand_desc(rng, nlang=rng.choice([1, 2]), unbalanced=0.0, absolute=0.0, with_layout=0.0)
+            caps0 = bad["langs"][0]["caps"]
+            while len(caps0) < 3:
+                caps0.append(json.loads(json.dumps(caps0[-1])))
+                caps0[-1]["start"] = caps0[-2]["end"] + 1000000; caps0[-1]["end"] = caps0[-1]["start"] + 1000000
+            caps0[rng.randint(1, len(caps0) - 1)]["layout"] = {"origin": ["100px", "50px"]}
+            good = setbuild.rand_desc(rng, nlang=rng.choice([1, 2]), unbalanced=0.0, absolute=0.0, with_layout=0.0)
+            for c in good["langs"][0]["caps"]:
+                c["start"] += 7000000; c["end"] += 7000000
+            sets = [bad, good]
+            shared = [(kind, None)]
+            ops_fixed = [("shared", 0, kind, None, 1), ("shared", 0, kind, None, 0), ("shared", 0, kind, None, 1), ("fresh", None, kind, None, 1)]
         else:
             ops_fixed = None
         ops = []
